@@ -202,4 +202,5 @@ def absmsg(frame: bytes) -> dict:
         "T": 1 if h.is_retransmit else 0, "P": 1 if h.is_proxyable else 0, "E": 1 if h.is_error else 0,
         "oh": val(K.AVP_ORIGIN_HOST, ""), "rlm": val(K.AVP_DESTINATION_REALM, ""),
         "rc": val(K.AVP_RESULT_CODE, 0),
+        "dc": val(K.AVP_DISCONNECT_CAUSE, -1),
     }
